@@ -164,7 +164,7 @@ Ltac sh := (* chains of same_hold steps *)
       | E : take_fault ?b _ = (_, ?c) |- same_hold ?a ?c => eapply same_hold_trans; [|apply (same_hold_take_fault _ _ _ _ E)]
       end ].
 
-Lemma InvC_env calls s a s' : InvC calls s -> step_env calls s a = Some s' -> InvC calls s'.
+Lemma InvC_env calls s a s' : InvC calls s -> step_env fixed calls s a = Some s' -> InvC calls s'.
 Proof.
   intros HI H. unfold step_env in H. destruct a.
   - (* EStart *)
@@ -190,7 +190,7 @@ Proof.
         -- apply Nat.eqb_neq in Ej. rewrite <- HC. unfold s0. destruct (c_closure cs); simpl; [|tauto].
            split; [intros [A [B|B]]; [congruence|auto]|intros B; auto].
     + destruct (bclosed s1) eqn:Eb; inversion H; subst; clear H.
-      * unfold caller_panic, begin_seterr. eapply InvC_same; [apply same_hold_wake|].
+      * unfold caller_return.
         destruct T1 as (Ta & Tb & _).
         split; simpl.
         -- rewrite Tb. apply NoDup_remove_nat. unfold s0. destruct (c_closure cs); simpl; [constructor; auto|auto].
